@@ -161,7 +161,9 @@ func checkC19(c *core.Check) {
 		}
 		c.Cov["inductive_invariant"] = map[string]any{"module": "GenDirInd", "invariant": "IndInv", "base_case": base, "inductive_step": step, "tool": "apalache-mc --length=0 / --length=1"}
 	}
-	userFiles := []string{"notes.txt", "zz_user.go"}
+	// (among the user's files: Go files other generators left in the same package, with the conventional
+	// "Code generated ... DO NOT EDIT." header - not goag's to touch either)
+	userFiles := []string{"notes.txt", "zz_user.go", "mock_store.go", "kind_string.go"}
 	files := append(append([]string{}, c19Owned...), userFiles...)
 
 	// 1. design check + history generation by TLC
@@ -268,6 +270,14 @@ func checkC19(c *core.Check) {
 	initial := map[string]string{}
 	for _, u := range userFiles {
 		initial[u] = "user0:" + u + "\n"
+		switch u {
+		case "mock_store.go":
+			initial[u] = "// Code generated by MockGen. DO NOT EDIT.\n// Source: store.go\n\npackage gen\n\ntype MockStore struct{ calls int }\n"
+			continue
+		case "kind_string.go":
+			initial[u] = "// Code generated by \"stringer -type=Kind\"; DO NOT EDIT.\n\npackage gen\n\nfunc _() {}\n"
+			continue
+		}
 		if strings.HasSuffix(u, ".go") {
 			// a real Go file of the user's, in the same package, that binds names the generated code leaves to
 			// goimports (log, fmt, strings) to packages of its own: owned files must not pick that up
